@@ -379,4 +379,143 @@ theorem uniformRead_add (fuel : Nat) (qs : List Nat) (pol : Poly) (s : Bytes) (b
   simp only [Res.bind_ok]
   exact drawRowsU_add fuel qs pol s1 b1 r s' b' h
 
+/-! ### range in both modes -/
+
+/-- the written value stays below `q` whenever the drawn value is -/
+def GoodCoeff (m : Mode) (q a : Nat) : Prop := ∀ w, w < q → m.f a w q < q
+
+theorem goodCoeff_read (q a : Nat) : GoodCoeff .read q a := fun _ hw => hw
+
+theorem goodCoeff_add (q a : Nat) (ha : a < q) (hq : 2 * q ≤ W) : GoodCoeff .readAndAdd q a := by
+  intro w hw
+  show CRed (u64add a w) q < q
+  have hadd : u64add a w = a + w := by unfold u64add; exact Nat.mod_eq_of_lt (by omega)
+  rw [hadd]
+  unfold CRed
+  by_cases h : q ≤ a + w
+  · have : u64ge (a + w) q = true := by simpa [u64ge] using h
+    rw [if_pos this]
+    unfold u64sub
+    rw [Nat.mod_eq_of_lt (by omega : q < W)]
+    have e : a + w + W - q = (a + w - q) + W := by omega
+    rw [e, Nat.add_mod_right, Nat.mod_eq_of_lt (by omega)]
+    omega
+  · have : ¬ (u64ge (a + w) q = true) := by simpa [u64ge] using h
+    rw [if_neg this]
+    omega
+
+theorem drawU_lt (q mask : Nat) : ∀ (fuel : Nat) (s : Bytes) (b : Buf) (w : Nat) (s' : Bytes) (b' : Buf),
+    drawU q mask fuel s b = .ok (w, s', b') → w < q := by
+  intro fuel
+  induction fuel with
+  | zero => intro s b w s' b' h; simp [drawU] at h
+  | succ n ihn =>
+    intro s b w s' b' h
+    unfold drawU at h
+    obtain ⟨⟨s1, b1⟩, _, h⟩ := Res.bind_eq_ok h
+    dsimp only at h
+    split at h
+    · rename_i hq
+      injection h with h
+      injection h with h1 _
+      subst h1; exact hq
+    · exact ihn _ _ _ _ _ h
+
+theorem drawRowU_good (fuel : Nat) (m : Mode) (q mask : Nat) :
+    ∀ (row : List Nat) (s : Bytes) (b : Buf) (r : List Nat) (s' : Bytes) (b' : Buf),
+    (∀ a ∈ row, GoodCoeff m q a) →
+    drawRowU fuel m q mask row s b = .ok (r, s', b') → ∀ c ∈ r, c < q := by
+  intro row
+  induction row with
+  | nil =>
+    intro s b r s' b' _ h
+    simp only [drawRowU] at h
+    injection h with h
+    injection h with h1 _
+    subst h1
+    simp
+  | cons a row ih =>
+    intro s b r s' b' hg h
+    simp only [drawRowU] at h
+    obtain ⟨⟨w, s1, b1⟩, h1, h⟩ := Res.bind_eq_ok h
+    dsimp only at h
+    obtain ⟨⟨t, s2, b2⟩, h2, h⟩ := Res.bind_eq_ok h
+    simp only [Res.pure_eq] at h
+    injection h with h
+    injection h with h3 _
+    subst h3
+    have hw : w < q := drawU_lt q mask fuel s b w s1 b1 h1
+    intro c hc
+    simp only [List.mem_cons] at hc
+    rcases hc with hc | hc
+    · rw [hc]; exact hg a List.mem_cons_self w hw
+    · exact ih s1 b1 t s2 b2 (fun a' ha' => hg a' (List.mem_cons_of_mem _ ha')) h2 c hc
+
+/-- the rows below the level are good for mode `m` -/
+def GoodRows (m : Mode) : List Nat → Poly → Prop
+  | [], _ => True
+  | _ :: _, [] => True
+  | q :: qs, row :: rest => (∀ a ∈ row, GoodCoeff m q a) ∧ GoodRows m qs rest
+
+theorem drawRowsU_good (fuel : Nat) (m : Mode) :
+    ∀ (qs : List Nat) (pol : Poly) (s : Bytes) (b : Buf) (r : Poly) (s' : Bytes) (b' : Buf),
+    GoodRows m qs pol → drawRowsU fuel m qs pol s b = .ok (r, s', b') → RowsBelow qs r := by
+  intro qs
+  induction qs with
+  | nil => intro pol s b r s' b' _ _; trivial
+  | cons q qs ih =>
+    intro pol s b r s' b' hg h
+    cases pol with
+    | nil => simp [drawRowsU] at h
+    | cons row rest =>
+      simp only [drawRowsU] at h
+      obtain ⟨⟨r1, s1, b1⟩, h1, h⟩ := Res.bind_eq_ok h
+      dsimp only at h
+      obtain ⟨⟨t, s2, b2⟩, h2, h⟩ := Res.bind_eq_ok h
+      simp only [Res.pure_eq] at h
+      injection h with h
+      injection h with h3 _
+      subst h3
+      exact ⟨drawRowU_good fuel m q (maskOf q) row s b r1 s1 b1 hg.1 h1, ih rest s1 b1 t s2 b2 hg.2 h2⟩
+
+theorem uniformRead_good (fuel : Nat) (m : Mode) (qs : List Nat) (pol : Poly) (s : Bytes) (b : Buf)
+    (r : Poly) (s' : Bytes) (b' : Buf) (hg : GoodRows m qs pol)
+    (h : uniformRead fuel m qs pol s b = .ok (r, s', b')) : RowsBelow qs r := by
+  unfold uniformRead at h
+  obtain ⟨⟨s1, b1⟩, _, h⟩ := Res.bind_eq_ok h
+  exact drawRowsU_good fuel m qs pol s1 b1 r s' b' hg h
+
+theorem goodRows_add (qs : List Nat) (pol : Poly) (hq : ∀ q ∈ qs, 2 * q ≤ W) (hp : RowsBelow qs pol) :
+    GoodRows .readAndAdd qs pol := by
+  induction qs generalizing pol with
+  | nil => trivial
+  | cons q qs ih =>
+    cases pol with
+    | nil => trivial
+    | cons row rest =>
+      obtain ⟨h0, hrest⟩ := hp
+      exact ⟨fun a ha => goodCoeff_add q a (h0 a ha) (hq q List.mem_cons_self),
+        ih rest (fun q' hq' => hq q' (List.mem_cons_of_mem _ hq')) hrest⟩
+
+theorem RowsBelow_get : ∀ (qs : List Nat) (r : Poly), RowsBelow qs r →
+    ∀ i row, i < qs.length → r[i]? = some row → ∀ c ∈ row, c < qs.getD i 0 := by
+  intro qs
+  induction qs with
+  | nil => intro r _ i row hi; simp at hi
+  | cons q qs ih =>
+    intro r hrb i row hi hrow c hc
+    cases r with
+    | nil => exact absurd hrb (by simp [RowsBelow])
+    | cons r0 rs =>
+      obtain ⟨h0, hrest⟩ := hrb
+      cases i with
+      | zero =>
+        simp only [List.getElem?_cons_zero, Option.some.injEq] at hrow
+        subst hrow
+        simpa using h0 c hc
+      | succ i =>
+        simp only [List.getElem?_cons_succ] at hrow
+        simp only [List.getD_cons_succ]
+        exact ih rs hrest i row (by simpa using hi) hrow c hc
+
 end Lattigo.Sampler
